@@ -27,18 +27,18 @@ template <class T, size_t M, size_t N> void op_badindex2(Ctx &c) {
     int i = (int)(c.p1() % M), j = (int)(c.p2() % N);
     int over = 1 + (int)((c.p3() >> 4) % 3);
     switch (c.p3() % 4) { case 0: i = (int)M + over - 1; break; case 1: j = (int)N + over - 1; break; case 2: i = -(int)M - over; break; default: j = -(int)N - over; }
-    uint32_t w = (c.p3() >> 8) % 2;
-    T r = 0;
-    c.run([&] { if (w) a(i, j) = (T)1; else r = a(i, j); });
+    uint32_t w = (c.p3() >> 8) % 3;
+    T r = 0; const auto &ca = a;
+    c.run([&] { if (w == 1) a(i, j) = (T)1; else if (w == 2) r = ca(i, j); else r = a(i, j); });
     c.retv(r);
 }
 template <class T, size_t N> void op_badindex1(Ctx &c) {
     auto &a = c.own<Tensor<T, N>>(0, true);
     int over = 1 + (int)((c.p3() >> 4) % 3);
     int i = (c.p3() & 1) ? (int)N + over - 1 : -(int)N - over;
-    uint32_t w = (c.p3() >> 8) % 2;
-    T r = 0;
-    c.run([&] { if (w) a(i) = (T)1; else r = a(i); });
+    uint32_t w = (c.p3() >> 8) % 3;
+    T r = 0; const auto &ca = a;
+    c.run([&] { if (w == 1) a(i) = (T)1; else if (w == 2) r = ca(i); else r = a(i); });
     c.retv(r);
 }
 template <class T, size_t M, size_t N, size_t P> void op_badindex3(Ctx &c) {
@@ -47,9 +47,9 @@ template <class T, size_t M, size_t N, size_t P> void op_badindex3(Ctx &c) {
     int over = 1 + (int)((c.p3() >> 4) % 3);
     switch (c.p3() % 6) { case 0: i = (int)M + over - 1; break; case 1: j = (int)N + over - 1; break; case 2: k = (int)P + over - 1; break;
         case 3: i = -(int)M - over; break; case 4: j = -(int)N - over; break; default: k = -(int)P - over; }
-    uint32_t w = (c.p3() >> 8) % 2;
-    T r = 0;
-    c.run([&] { if (w) a(i, j, k) = (T)1; else r = a(i, j, k); });
+    uint32_t w = (c.p3() >> 8) % 3;
+    T r = 0; const auto &ca = a;
+    c.run([&] { if (w == 1) a(i, j, k) = (T)1; else if (w == 2) r = ca(i, j, k); else r = a(i, j, k); });
     c.retv(r);
 }
 template <class T, size_t M, size_t N, size_t P, size_t Q> void op_badindex4(Ctx &c) {
@@ -60,7 +60,8 @@ template <class T, size_t M, size_t N, size_t P, size_t Q> void op_badindex4(Ctx
     ix[ax] = (c.p2() & 1) ? d[ax] + over - 1 : -d[ax] - over;
     uint32_t w = (c.p3() >> 8) % 2;
     T r = 0;
-    c.run([&] { if (w) a(ix[0], ix[1], ix[2], ix[3]) = (T)1; else r = a(ix[0], ix[1], ix[2], ix[3]); });
+    const auto &ca = a;
+    c.run([&] { if (w) a(ix[0], ix[1], ix[2], ix[3]) = (T)1; else if (c.p2() & 2) r = ca(ix[0], ix[1], ix[2], ix[3]); else r = a(ix[0], ix[1], ix[2], ix[3]); });
     c.retv(r);
 }
 template <class T, size_t M, size_t N, size_t P> void op_badindex_map3(Ctx &c) {
@@ -71,7 +72,8 @@ template <class T, size_t M, size_t N, size_t P> void op_badindex_map3(Ctx &c) {
     ix[ax] = (c.p2() & 1) ? d[ax] + over - 1 : -d[ax] - over;
     uint32_t w = (c.p3() >> 8) % 2;
     T r = 0;
-    c.run([&] { if (w) a(ix[0], ix[1], ix[2]) = (T)1; else r = a(ix[0], ix[1], ix[2]); });
+    const auto &ca = a;
+    c.run([&] { if (w) a(ix[0], ix[1], ix[2]) = (T)1; else if (c.p2() & 2) r = ca(ix[0], ix[1], ix[2]); else r = a(ix[0], ix[1], ix[2]); });
     c.retv(r);
 }
 // the same through a map over an exact-extent buffer
@@ -80,9 +82,9 @@ template <class T, size_t M, size_t N> void op_badindex_map(Ctx &c) {
     int i = (int)(c.p1() % M), j = (int)(c.p2() % N);
     int over = 1 + (int)((c.p3() >> 4) % 3);
     switch (c.p3() % 4) { case 0: i = (int)M + over - 1; break; case 1: j = (int)N + over - 1; break; case 2: i = -(int)M - over; break; default: j = -(int)N - over; }
-    uint32_t w = (c.p3() >> 8) % 2;
-    T r = 0;
-    c.run([&] { if (w) a(i, j) = (T)1; else r = a(i, j); });
+    uint32_t w = (c.p3() >> 8) % 3;
+    T r = 0; const auto &ca = a;
+    c.run([&] { if (w == 1) a(i, j) = (T)1; else if (w == 2) r = ca(i, j); else r = a(i, j); });
     c.retv(r);
 }
 #endif
